@@ -296,8 +296,9 @@ class Bound:
 
 
 class Lam:
-    def __init__(self, node, env, module):
+    def __init__(self, node, env, module, defaults=()):
         self.node, self.env, self.module = node, env, module
+        self.defaults = defaults      # evaluated at definition time
 
 
 class Opaque:
@@ -447,6 +448,7 @@ class Interp:
         self.skipped_guards = []
         self.trailing = 1       # number of unmaterialised trailing axes
         self.overrides = {}     # function qualname -> PyFunc (rule models)
+        self.assume_positive = None   # predicate: symbolic counts > 0
         self.cls_stack = []
 
     # ------------------------------------------------------------------
@@ -770,7 +772,9 @@ class Interp:
         if isinstance(e, ast.Call):
             return self.eval_call(e, env, module)
         if isinstance(e, ast.Lambda):
-            return Lam(e, env, module)
+            return Lam(e, env, module,
+                       tuple(self.eval(d, env, module)
+                             for d in e.args.defaults))
         if isinstance(e, ast.ListComp) or isinstance(e, ast.GeneratorExp):
             return self.comprehension(e, env, module)
         if isinstance(e, ast.DictComp):
@@ -852,6 +856,11 @@ class Interp:
     def compare(self, op, a, b, node):
         if hasattr(a, "skv_compare"):
             return a.skv_compare(op, b)
+        if self.assume_positive is not None and isinstance(a, Poly) and \
+                not a.is_const() and b == 0 and \
+                isinstance(op, (ast.Gt, ast.GtE, ast.NotEq)) and \
+                self.assume_positive(a):
+            return True        # the branch with a non-empty count
         if isinstance(op, (ast.Is, ast.IsNot)) and (
                 isinstance(a, Builtin) or isinstance(b, Builtin)):
             r = isinstance(a, Builtin) and isinstance(b, Builtin) and \
@@ -1057,8 +1066,11 @@ class Interp:
             a = f.node.args
             names = [x.arg for x in a.args]
             loc = _ChainEnv(f.env)
-            if len(args) != len(names):
+            nd = len(f.defaults)
+            if not (len(names) - nd <= len(args) <= len(names)) or kwargs:
                 raise Unsupported("lambda arity", node)
+            if nd:
+                loc.update(zip(names[len(names) - nd:], f.defaults))
             loc.update(zip(names, args))
             return self.eval(f.node.body, loc, f.module)
         if isinstance(f, Closure):
@@ -1132,7 +1144,15 @@ class Interp:
         if n == "zip":
             return list(zip(*args))
         if n == "sum":
-            tot = 0
+            tot = args[1] if len(args) > 1 else kwargs.get("start", 0)
+            if isinstance(tot, list):
+                tot = list(tot)
+                for v in args[0]:
+                    if not isinstance(v, list):
+                        raise Unsupported("sum of non-lists onto a list",
+                                          node)
+                    tot = tot + v
+                return tot
             for v in args[0]:
                 tot = binop(ast.Add(), tot, v, node)
             return tot
